@@ -15,7 +15,7 @@ pub fn plan() -> Plan {
         meta: Meta {
             property: "C13",
             level: "exploration",
-            rule: "bounded-liveness probe after random call sequences: a history over the whole public API (data operations, try_* lifecycle calls, create/close/restore_active_blob_in_background in states where they do and do not apply, force_update_active_blob with predicates true / false / records>2, free_excess_resources, offload, fsync, restarts) runs on a storage with a record limit of 5 per blob; then the probe: (i) Storage::verif_worker_alive() - the worker task has not finished (timing-free); (ii) the active blob is filled beyond its record limit, the 200 ms rotation debounce is waited out once, at most 3 more records are written, each followed by a worker barrier: next_blob_id must have advanced and the previous blob must be closed; (iii) after barriers every non-empty closed blob has a current index file (written bit set, recorded blob size == size of the blob file): first without flushing deferred dumps (the worker's own timers must fire, bounded by 3 s of polling = 1000x the configured deferred maximum), plus a dedicated scenario in which try_close_active_blob requests a dump while the previous dump task is still running (its index write delayed 20-60 ms through an H1 failpoint): the request must still be served, and a variant in which one delete appends a marker to 3-5 dumped closed blobs while every index write takes 110-260 ms, so that the dump pass outlasts pearl's 200 ms time slice and must be continued without skipping a blob; the overflow probe exceeds a 5-record limit or a 500-byte size limit; a third of the histories run with a dirty-byte limit of 0..1000 and blob syncs slowed by 2-9 ms, and every history runs under a timing-free hang monitor (pending + no file operation started, finished or in flight during >=100 consecutive samples over 15 s = deadlock); (iv) close() returns: while it is pending the I/O tap's in-flight counter and event count are sampled every 50 ms; 'pending, nothing in flight and no file operation during >=100 samples over 8 s' is reported as a hang, a watchdog firing while I/O still happens is inconclusive. Non-trivial = history containing a background request that did not apply in its state, or a deferred dump; distinct = hash(history).",
+            rule: "bounded-liveness probe after random call sequences: a history over the whole public API (data operations, try_* lifecycle calls, create/close/restore_active_blob_in_background in states where they do and do not apply, force_update_active_blob with predicates true / false / records>2, free_excess_resources, offload, fsync, restarts) runs on a storage with a record limit of 5 per blob; then the probe: (i) Storage::verif_worker_alive() - the worker task has not finished (timing-free); (ii) the active blob is filled beyond its record limit, the 200 ms rotation debounce is waited out once, at most 3 more records are written, each followed by a worker barrier: next_blob_id must have advanced and the previous blob must be closed; (iii) after barriers every non-empty closed blob has a current index file (written bit set, recorded blob size == size of the blob file): first without flushing deferred dumps (the worker's own timers must fire, bounded by 3 s of polling = 1000x the configured deferred maximum), plus a dedicated scenario in which try_close_active_blob requests a dump while the previous dump task is still running (its index write delayed 20-60 ms through an H1 failpoint): the request must still be served, and a variant in which one delete appends a marker to 3-5 dumped closed blobs while every index write takes 110-260 ms, so that the dump pass outlasts pearl's 200 ms time slice and must be continued without skipping a blob; the overflow probe exceeds a 5-record limit or a 500-byte size limit; a scenario steps the wall clock back (5 s, 1 h, 400 days; injected process-locally into CLOCK_REALTIME) after the active blob was created and requires rotation to go on; a third of the histories run with a dirty-byte limit of 0..1000 and blob syncs slowed by 2-9 ms, and every history runs under a timing-free hang monitor (pending + no file operation started, finished or in flight during >=100 consecutive samples over 15 s = deadlock); (iv) close() returns: while it is pending the I/O tap's in-flight counter and event count are sampled every 50 ms; 'pending, nothing in flight and no file operation during >=100 samples over 8 s' is reported as a hang, a watchdog firing while I/O still happens is inconclusive. Non-trivial = history containing a background request that did not apply in its state, or a deferred dump; distinct = hash(history).",
             assumptions: vec!["liveness is restated as bounded progress: N further operations + worker barriers; the only real-time waits are pearl's own 200 ms debounce and the deferred-dump timers", "verdict holds for the histories generated for this seed"],
         },
         shards: 16,
@@ -303,6 +303,51 @@ async fn run(l: &mut Loose<8>, ops: &[Op], pred_gt: &[bool]) -> Out {
     out
 }
 
+/// The wall clock steps back (NTP correction, VM resume) while the storage runs: the age of the active blob, which
+/// the rotation debounce looks at, is computed from wall-clock times. Rotation must go on. The step is injected
+/// process-locally into CLOCK_REALTIME (see clock.rs); timers use the monotonic clock and are not affected.
+async fn clock_step_scenario(l: &mut Loose<8>, back_s: i64) -> Out {
+    let mut out = Out { violation: None, inconclusive: None, bg_inapplicable: 0, rotations: 0, index_files_checked: 0, polls: 0 };
+    if let Err(e) = l.open(false).await {
+        out.violation = Some(("init-failed-on-empty-dir".into(), e));
+        return out;
+    }
+    for i in 0..3u64 {
+        let _ = l.exec(&Op::Put { k: (i % 4) as u16, ts: i, meta: None, size: 20 }).await;
+    }
+    // older than the rotation debounce
+    tokio::time::sleep(Duration::from_millis(260)).await;
+    let before = std::time::SystemTime::now();
+    crate::clock::set_realtime_offset(-back_s);
+    let stepped = std::time::SystemTime::now() < before;
+    let s = l.storage.as_ref().unwrap();
+    let n0 = s.next_blob_id();
+    let mut rotated = false;
+    for i in 0..12u64 {
+        let _ = s.write(&l.key((i % 4) as u16), bytes::Bytes::from(vec![i as u8; 24]), BlobRecordTimestamp::new(10 + i)).await;
+        if !s.verif_barrier(true).await {
+            out.violation = Some(("worker-dead".into(), "worker died after the clock step".into()));
+            break;
+        }
+        if s.next_blob_id() > n0 {
+            rotated = true;
+            break;
+        }
+    }
+    let cnt = s.records_count_in_active_blob().await;
+    crate::clock::set_realtime_offset(0);
+    if !stepped {
+        out.inconclusive = Some("the injected clock step had no effect on SystemTime::now()".into());
+    } else if out.violation.is_none() && !rotated {
+        out.violation = Some(("no-rotation-after-wall-clock-step-back".into(), format!("the wall clock was set back by {} s after the active blob had been created; 12 more records were written (limit 5, each followed by a worker barrier) and the active blob was never replaced: it holds {:?} records", back_s, cnt)));
+    } else {
+        out.rotations += 1;
+    }
+    let st = l.storage.take().unwrap();
+    let _ = tokio::time::timeout(Duration::from_secs(20), st.close()).await;
+    out
+}
+
 pub fn shard(ctx: &Ctx) -> Shard {
     let mut sh = Shard::default();
     let mut rng = Rng::new(ctx.shard_seed());
@@ -322,6 +367,32 @@ pub fn shard(ctx: &Ctx) -> Shard {
         let mut pred_gt: Vec<bool> = ops.iter().map(|_| rng.chance(1, 3)).collect();
         let dir = new_dir("c13-");
         let mut l: Loose<8> = Loose::new(dir.clone(), cfg.clone());
+        if n % 16 == 5 {
+            cfg.max_records = Some(5);
+            cfg.max_blob_size = None;
+            l.cfg = cfg.clone();
+            let back = *rng.pick(&[5i64, 3600, 86_400 * 400]);
+            let r = block_on_catch(cfg.mt, clock_step_scenario(&mut l, back));
+            crate::clock::set_realtime_offset(0);
+            rm_dir(&dir);
+            n += 1;
+            sh.evaluations += 1;
+            sh.add("wall_clock_step_back_scenarios", 1);
+            sh.nontrivial.insert(fnv(format!("clk-{}-{}", back, n).as_bytes()));
+            let replay = json!({"check": "c13-clock-step", "cfg": cfg.to_json(), "back_s": back});
+            match r {
+                Ok(out) => {
+                    if let Some(i) = out.inconclusive {
+                        sh.inconclusive.push(i);
+                    }
+                    if let Some((sig, detail)) = out.violation {
+                        sh.violation(&ctx.known, "C13", ctx.seed, &format!("C13/{}", sig), &detail, replay);
+                    }
+                }
+                Err(p) => sh.violation(&ctx.known, "C13", ctx.seed, "C13/panic", &p, replay),
+            }
+            continue;
+        }
         if n % 8 == 7 {
             // variant A: the first index write is slow (a dump is requested while the previous one runs);
             // variant B: every index write is slow, so that one dump pass over several closed blobs outlasts
